@@ -53,6 +53,8 @@ def header(d, name, ind):
         return ["{}{} {}({}a, b=1, *args, **kwargs):".format(ind, kw, name, self_)]
     if sig == "kwonly":
         return ["{}{} {}({}a, *, b='x', c=3):".format(ind, kw, name, self_)]
+    if sig == "posonly":
+        return ["{}{} {}({}a=0, b='x', /, c=\" \", *, d=4):".format(ind, kw, name, self_)]
     if sig == "odd_defaults":
         return ["{}{} {}({}a, b=\"    \", c='  -  ', d=(1, [2]), *, e=\"x    y: z\", f={{'k': ')'}}):".format(ind, kw, name, self_)]
     if sig == "multiline":
